@@ -197,7 +197,10 @@ class HierDictDocument(DictDocument):
                 retval = inst
 
             elif issubclass(cls, ComplexModelBase):
-                retval = self._doc_to_object(ctx, cls, inst, validator)
+                if inst is None:
+                    retval = None
+                else:
+                    retval = self._doc_to_object(ctx, cls, inst, validator)
 
             else:
                 if cls_attrs.empty_is_none and inst in (u'', b''):
